@@ -6,13 +6,21 @@ let show_b b = if b then "ok" else "rej"
 let show_o = function Some r -> show_r r | None -> "-"
 let parse_o s = if s = "-" then None else Some (parse_r s)
 
-let parse_case (toks : string list) : case =
+(* "x" or "x/a/b/..": the head and the identities after it *)
+let split_ids (tok : string) : string * n list =
+  match String.split_on_char '/' tok with
+  | [] -> (tok, [])
+  | h :: ids -> (h, List.map n_of_string ids)
+
+let n_of_int (i : int) : n = n_of_string (string_of_int i)
+
+let parse_case (toks : string list) : icase =
   let a = Array.of_list toks in
   let pos = ref 1 in                                   (* a.(0) is the generator label *)
   let next () = let s = a.(!pos) in incr pos; s in
   let expect s = if next () <> s then failwith ("case syntax: expected " ^ s) in
   let count () = let s = next () in if s = "~" then None else Some (int_of_string s) in
-  let rec rep n f = if n <= 0 then [] else let x = f () in x :: rep (n - 1) f in
+  let rep n f = let rec go i = if i >= n then [] else let x = f i in x :: go (i + 1) in go 0 in
   let optn () = let s = next () in if s = "~" then None else Some (n_of_string s) in
   let _salt = next () in
   let pool = n_of_string (next ()) in
@@ -20,56 +28,75 @@ let parse_case (toks : string list) : case =
   expect "C";
   let certs = match count () with
     | None -> None
-    | Some n -> Some (rep n (fun () ->
-        let tag = n_of_string (next ()) in
+    | Some n -> Some (rep n (fun i ->
+        let (tag, ids) = split_ids (next ()) in
+        let id = (match ids with
+          | [] -> let p = n_of_int i in { i_cred = p; i_pool = p; i_var = p }
+          | [a; b; c] -> { i_cred = a; i_pool = b; i_var = c }
+          | _ -> failwith "case syntax: certificate identities") in
+        let tag = n_of_string tag in
         let coin = optn () in
         let sc = (next () = "1") in
-        match cert_of_tag tag coin with Some c -> (c, sc) | None -> failwith "case syntax: certificate")) in
+        match cert_of_tag tag coin with
+        | Some c -> { ic_cert = c; ic_script = sc; ic_id = id }
+        | None -> failwith "case syntax: certificate")) in
   expect "W";
   let wdrl = match count () with
     | None -> None
-    | Some n -> Some (rep n (fun () -> let sc = (next () = "1") in let c = n_of_string (next ()) in (sc, c))) in
+    | Some n -> Some (rep n (fun i ->
+        let (sc, ids) = split_ids (next ()) in
+        let acct = (match ids with [] -> n_of_int i | [a] -> a | _ -> failwith "case syntax: withdrawal identity") in
+        let c = n_of_string (next ()) in
+        { w_script = (sc = "1"); w_acct = acct; w_coin = c })) in
   expect "P";
-  let props = match count () with None -> None | Some n -> Some (rep n (fun () -> n_of_string (next ()))) in
+  let props = match count () with None -> None | Some n -> Some (rep n (fun i ->
+        let (d, ids) = split_ids (next ()) in
+        let (act, ret) = (match ids with [] -> (n_of_int i, n_of_int i) | [a; b] -> (a, b) | _ -> failwith "case syntax: proposal identities") in
+        { p_act = act; p_ret = ret; p_deposit = n_of_string d })) in
   expect "I";
-  let ins = (match count () with Some n -> rep n (fun () -> n_of_string (next ())) | None -> []) in
+  let ins = (match count () with Some n -> rep n (fun _ -> n_of_string (next ())) | None -> []) in
   expect "O";
-  let outs = (match count () with Some n -> rep n (fun () -> n_of_string (next ())) | None -> []) in
+  let outs = (match count () with Some n -> rep n (fun _ -> n_of_string (next ())) | None -> []) in
   expect "D";
   let don = optn () in
-  { k_pool_deposit = pool; k_key_deposit = key; k_certs = certs; k_withdrawals = wdrl; k_proposals = props;
-    k_inputs = ins; k_outputs = outs; k_donation = don }
+  { ik_pool_deposit = pool; ik_key_deposit = key; ik_certs = certs; ik_withdrawals = wdrl; ik_proposals = props;
+    ik_inputs = ins; ik_outputs = outs; ik_donation = don }
 
 let contains (s : string) (sub : string) : bool =
   let n = String.length s and m = String.length sub in
   let rec go i = i + m <= n && (String.sub s i m = sub || go (i + 1)) in go 0
 
-let show_obs (o : obs) : string =
-  let fields = Printf.sprintf "hd=%s hi=%s hd2=%s hi2=%s cd=%s cr=%s wt=%s bd=%s bi=%s ti=%s to=%s xd=%s xi=%s sc=%s sw=%s dd=%s di=%s"
+let show_obs (io : iobs) : string =
+  let o = io.io_base in
+  let fields = Printf.sprintf "hd=%s hi=%s hd2=%s hi2=%s cd=%s cr=%s wt=%s bd=%s bi=%s ti=%s to=%s xd=%s xi=%s sc=%s sw=%s dd=%s di=%s nc=%s nb=%s nw=%s nwb=%s np=%s npb=%s"
     (show_r o.o_helper_deposit) (show_r o.o_helper_implicit) (show_r o.o_helper_deposit_wire) (show_r o.o_helper_implicit_wire)
     (show_r o.o_cb_deposit) (show_r o.o_cb_refund) (show_r o.o_wb_total)
     (show_r o.o_tb_deposit) (show_r o.o_tb_implicit) (show_r o.o_tb_total_input) (show_r o.o_tb_total_output)
     (show_r o.o_helper_deposit_built) (show_r o.o_helper_implicit_built)
-    (show_b o.o_set_certs) (show_b o.o_set_withdrawals) (show_o o.o_dep_deposit) (show_o o.o_dep_implicit) in
+    (show_b o.o_set_certs) (show_b o.o_set_withdrawals) (show_o o.o_dep_deposit) (show_o o.o_dep_implicit)
+    (string_of_n io.io_n_certs) (string_of_n io.io_n_cb) (string_of_n io.io_n_wdrl) (string_of_n io.io_n_wb)
+    (string_of_n io.io_n_props) (string_of_n io.io_n_pb) in
   (* first token: `ovf` when some figure is an overflow error, `ok` otherwise (only for the case distribution) *)
   (if contains fields "=err" then "ovf " else "ok ") ^ fields
 
 (* the implementation's observation: "ok name=value …" in the fixed order of show_obs *)
-let parse_obs (impl : string list) : obs option =
+let parse_obs (impl : string list) : iobs option =
   match impl with
   | ("ok" | "ovf") :: fields ->
     let tbl = List.map (fun f -> match String.index_opt f '=' with
         | Some i -> (String.sub f 0 i, String.sub f (i + 1) (String.length f - i - 1))
         | None -> (f, "")) fields in
     let g k = List.assoc k tbl in
-    Some { o_helper_deposit = parse_r (g "hd"); o_helper_implicit = parse_r (g "hi");
+    Some { io_n_certs = n_of_string (g "nc"); io_n_cb = n_of_string (g "nb"); io_n_wdrl = n_of_string (g "nw");
+           io_n_wb = n_of_string (g "nwb"); io_n_props = n_of_string (g "np"); io_n_pb = n_of_string (g "npb");
+           io_base = { o_helper_deposit = parse_r (g "hd"); o_helper_implicit = parse_r (g "hi");
            o_helper_deposit_wire = parse_r (g "hd2"); o_helper_implicit_wire = parse_r (g "hi2");
            o_cb_deposit = parse_r (g "cd"); o_cb_refund = parse_r (g "cr"); o_wb_total = parse_r (g "wt");
            o_tb_deposit = parse_r (g "bd"); o_tb_implicit = parse_r (g "bi");
            o_tb_total_input = parse_r (g "ti"); o_tb_total_output = parse_r (g "to");
            o_helper_deposit_built = parse_r (g "xd"); o_helper_implicit_built = parse_r (g "xi");
            o_set_certs = (g "sc" = "ok"); o_set_withdrawals = (g "sw" = "ok");
-           o_dep_deposit = parse_o (g "dd"); o_dep_implicit = parse_o (g "di") }
+           o_dep_deposit = parse_o (g "dd"); o_dep_implicit = parse_o (g "di") } }
   | _ -> None
 
 let show_verdict = function
@@ -82,10 +109,10 @@ let show_verdict = function
 
 let () = run_driver (fun toks impl ->
   let k = parse_case toks in
-  let m = show_obs (model_obs k) in
+  let m = show_obs (imodel_obs k) in
   let v = match impl with
     | [] -> "na"                                         (* no implementation result given *)
     | _ -> (match parse_obs impl with
-        | Some o -> show_verdict (judge k o)
+        | Some o -> show_verdict (ijudge k o)
         | None -> "fails:-") in                          (* panic or malformed observation *)
   (m, v))
